@@ -24,9 +24,19 @@ RULE = ("seeded expression trees (depth <= 3 quick, <= 5 thorough) over 9 quanti
         "elements) on ONE pair of operand objects reused for a*b, b*a, a*b again, (a*b)/b, a/b, a//b; every element "
         "of every step is a case; ndarray leaves of shallow operands also with element types int64, int32, "
         "float32 on the left, the right or both sides (exact integer values go to the model; bound with eps = 2**-24 "
-        "where float32 takes part)")
+        "where float32 takes part; a float32 value is judged only when every exact magnitude of the evaluation lies "
+        "in 1e-30..1e30); a third of the Array groups draws the container kinds of the two operands independently, and "
+        "a stream array-mixed runs EVERY pair of container kinds (ndarray / list / tuple on either side) x 1-4 elements "
+        "with operands that share a quantity type in different units, at exponent +-2, +-3 in the right operand; "
+        "stream same-type-other-category: operands that repeat a quantity type through different categories; "
+        "EVERY successful result (Scalar and Array) also reports its quantity type: GetQuantityType() is parsed into "
+        "a dimension vector and compared with the model's rep_and_exp (Alg.reportedTypes)")
 EXHAUSTIVE = {"quick": False, "thorough": False}
 ASSUMPTIONS = ["float results stay within K*eps*M (K=64) of the exact model: checked on every run, not proved",
+               "the model is per number: an Array operation is the model applied to every element with the operands' "
+               "quantities (that reduction is C10's theorem); the container kinds of the operands are not modelled",
+               "the quantity-type string is read back with the layout of _MakeStr (factors ' * '-separated, one ' / ', "
+               "'(type) ** n'), which C20 proves for the string model; only the exponent per type is compared here",
                "float // is compared with the exact floor except when the exact quotient is within K*eps*M of an integer",
                "the default singleton holds the POSC database that the translator rebuilds (same fill function)"]
 
@@ -130,18 +140,79 @@ def _gen(ctx, salt, max_depth, per_level, n_raw, n_aff):
         yield from _emit(ctx, "affine", rng.choice(OPS), rng.choice([a, ["*", a, x]]), rng.choice([b, ["/", x, b]]))
 
 
+def _mixed_arrays(ctx, salt, reps):
+    """Array operands with EVERY combination of container kinds (ndarray / list / tuple on either side) and 1-4
+    elements; the two operands share a quantity type in different units, and in the right operand that unit has
+    the exponent +-2 or +-3 (a power, or a power in a denominator), so that the matching re-expresses a whole
+    container with an exponent other than 1.  Same steps as the Array leg: a*b, b*a, a*b again, (a*b)/b, a/b, a//b."""
+    rng = ctx.fresh_rng("C04-mixed" + salt)
+    uni = ctx.uni
+    types = [t for t in uni.types if len(uni.units[t]) >= 2]
+    small = [1.5, -1.25, 0.75, 2.0, -0.5, 6.0, -3.0, 50.0, 20.0, -8.0]
+    i = 0
+    for _rep in range(reps):
+        for ka in A.ARR_CONTAINERS:
+            for kb in A.ARR_CONTAINERS:
+                for n in (1, 2, 3, 4):
+                    e = (2, -2, 3, -3)[(i + i // 4 + _rep) % 4]
+                    i += 1
+                    t = rng.choice(types)
+                    u1, u2 = rng.sample(uni.units[t], 2)
+                    a = ["L", float(rng.choice(small)).hex(), u1, rng.choice(uni.cats[t])]
+                    b = ["L", float(rng.choice(small)).hex(), u2, rng.choice(uni.cats[t])]
+                    if rng.random() < 0.4:
+                        a = [rng.choice("*/"), a, uni.leaf(rng)]
+                    tb = ["^", b, abs(e)]
+                    if e < 0:
+                        x = uni.leaf(rng, rng.choice([q for q in uni.types if q != t]))
+                        tb = ["/", ["L", float(rng.choice(small)).hex()] + x[2:], tb]
+                    cs = A.array_cases(ctx, "mul", a, tb, rng, kind=A.kind_name(ka, kb), n=n)
+                    _note(ctx, "array-mixed:%s:%d-elements:exp%+d%s" % (A.kind_name(ka, kb), n, e, "" if cs else ":not-buildable"))
+                    d = ctx.notes.setdefault("array_leg", {})
+                    d["groups"] = d.get("groups", 0) + 1
+                    d["element_cases"] = d.get("element_cases", 0) + len(cs)
+                    yield from cs
+
+
+def _same_type_other_category(ctx, salt, n):
+    """products and quotients whose operands repeat a quantity type through DIFFERENT categories (the result keeps
+    several categories of one type: its reported quantity type has to sum their exponents)"""
+    rng = ctx.fresh_rng("C04-cats" + salt)
+    uni = ctx.uni
+    types = [t for t in uni.types if len(uni.cats[t]) >= 2]
+    for _ in range(n):
+        t = rng.choice(types)
+        c1, c2 = rng.sample(uni.cats[t], 2)
+        a = ["L", float(uni.value(rng)).hex(), rng.choice(uni.units[t]), c1]
+        b = ["L", float(uni.value(rng)).hex(), rng.choice(uni.units[t]), c2]
+        x = uni.leaf(rng)
+        for op in OPS:
+            yield from _emit(ctx, "same-type-other-category", op, a, b)
+        yield from _emit(ctx, "same-type-other-category:nested", rng.choice(OPS), [rng.choice("*/"), a, x], b)
+        yield from _emit(ctx, "same-type-other-category:nested", rng.choice(OPS), x, [rng.choice("*/"), a, b])
+        yield from _emit(ctx, "same-type-other-category:pow", "^", ["*", a, b], None, rng.choice([2, 3]))
+
+
 def cases(ctx):
     if ctx.tier == "quick":
         yield from _gen(ctx, "corr", 3, 110, 60, 40)
+        yield from _same_type_other_category(ctx, "corr", 40)
+        yield from _mixed_arrays(ctx, "corr", 1)
     else:
         yield from _gen(ctx, "corr", 5, 900, 700, 400)
+        yield from _same_type_other_category(ctx, "corr", 300)
+        yield from _mixed_arrays(ctx, "corr", 6)
 
 
 def search(ctx):
     if ctx.tier == "quick":
         yield from _gen(ctx, "search", 3, 150, 60, 0)
+        yield from _same_type_other_category(ctx, "search", 40)
+        yield from _mixed_arrays(ctx, "search", 1)
     else:
         yield from _gen(ctx, "search", 5, 1500, 500, 0)
+        yield from _same_type_other_category(ctx, "search", 200)
+        yield from _mixed_arrays(ctx, "search", 4)
 
 
 # ------------------------------------------------------------- the property itself, on the real code only
@@ -176,8 +247,8 @@ def _oracle_array(c, ctx):
     ma, mb = [x[1] for x in sa], [x[1] for x in sb]
     with numpy.errstate(all="ignore"):
         try:
-            a = A.build_array(t["a"], ar["mult"], ar["kind"], dts[0])
-            b = A.build_array(t["b"], ar["mult"], ar["kind"], dts[1])
+            a = A.build_array(t["a"], ar["mult"], A.arr_kinds(ar)[0], dts[0])
+            b = A.build_array(t["b"], ar["mult"], A.arr_kinds(ar)[1], dts[1])
             a0, b0 = A.elems(a), A.elems(b)
         except Exception:
             return None
@@ -188,6 +259,13 @@ def _oracle_array(c, ctx):
             if got_d != want_d:
                 return fail(label + ": exponent per quantity type is the sum/difference", got=got_d, want=want_d,
                             result=repr(res))
+            rep_d = A.reported_dims(res)
+            if rep_d != want_d:
+                return fail(label + ": exponent per quantity type, as the result reports it through GetQuantityType(), "
+                            "is the sum/difference", got=rep_d, want=want_d, quantity_type=res.GetQuantityType(),
+                            result=repr(res))
+            if A.f32_skip(ctx, ar, [a, b, res], db, list(want_m) + ma + mb):
+                return None  # float32 range: magnitudes outside 1e-30..1e30 are not judged
             got = A.mags_of(res, db)
             for i in range(n):
                 if math.isfinite(got[i]) and math.isfinite(want_m[i]) and not rc(got[i], want_m[i]):
@@ -258,6 +336,10 @@ def oracle(c, ctx):
         got_d = A.dims_of(r, db)
         if got_d != want_d:
             return _fail("exponent per quantity type is the sum/difference", c, got=got_d, want=want_d, result=repr(r))
+        rep_d = A.reported_dims(r)
+        if rep_d != want_d:
+            return _fail("exponent per quantity type, as the result reports it through GetQuantityType(), is the "
+                         "sum/difference", c, got=rep_d, want=want_d, quantity_type=r.GetQuantityType(), result=repr(r))
         ents = A.entries_of(r)
         tot = {}
         for _c, u, e in ents:
